@@ -229,7 +229,7 @@ def strip_replies(cfg, segs, recs):
 
 def oracle(line, impl_line):
     o = parse_out(impl_line)
-    if o is None or o[0] == [888888]:
+    if o is None or o[0] == [18446744073710440504]:
         return "connection task crashed or panicked"
     cfg, rscript, wscript, segs, scripts = decode_case(line)
     head, consumed, wlog, inv, shut = parse_events(o)
